@@ -1,6 +1,6 @@
 (* PV.C19.Examples — non-vacuity: concrete non-trivial instances of the hypotheses / guards of the theorems. *)
 From Coq Require Import QArith ZArith List Bool PArith Arith Lia Lqa.
-From PV Require Import C19.Model C19.Spec C19.Penalty C19.Summary C19.Refuted.
+From PV Require Import Base.PyData Base.Expr Base.Interp C19.Model C19.Spec C19.Penalty C19.Summary C19.Categorize C19.Refuted.
 Import ListNotations.
 Local Open Scope nat_scope.
 
@@ -142,3 +142,23 @@ Example summary_example :
   | Err _ => (true, None, 0, 0)
   end = (false, Some (5 # 2)%Q, 1, 2).
 Proof. vm_compute. reflexivity. Qed.
+
+(* _categorize_parameters: CL = TH1*exp(ETA1), V = TH2 + TH3*ETA2, Y = F + F*EPS; ETA2's omega (8) is fixed to 0.
+   With the zero-fixed omega: TH1 random, TH2 fixed, TH3 not counted, sigma (9) fixed;
+   had ETA2 been random: TH2 and TH3 random as well. *)
+Definition cat_stmts : list (id * expr) :=
+  [(20%positive, Mul (Sym 1%positive) (Fn1 F_EXP (Sym 11%positive)));
+   (21%positive, Add (Sym 2%positive) (Mul (Sym 3%positive) (Sym 12%positive)))].
+Definition cat_err : list (id * expr) := [(30%positive, Add (Sym 31%positive) (Mul (Sym 31%positive) (Sym 13%positive)))].
+Definition cat_rvs := [mkRvd true [11%positive] [7%positive]; mkRvd true [12%positive] [8%positive]; mkRvd false [13%positive] [9%positive]].
+Definition cat_zero := mkCat cat_stmts cat_err cat_rvs [8%positive] [1%positive; 2%positive; 3%positive; 7%positive; 9%positive]
+                            [20%positive; 21%positive] [30%positive].
+Definition cat_random := mkCat cat_stmts cat_err cat_rvs [] [1%positive; 2%positive; 3%positive; 7%positive; 8%positive; 9%positive]
+                              [20%positive; 21%positive] [30%positive].
+Example categorize_example :
+  (setp_eqb (fst (categorize cat_zero)) [2%positive; 9%positive] && setp_eqb (snd (categorize cat_zero)) [1%positive; 7%positive]) = true /\
+  (setp_eqb (fst (categorize cat_random)) [9%positive]
+   && setp_eqb (snd (categorize cat_random)) [1%positive; 2%positive; 3%positive; 7%positive; 8%positive]) = true /\
+  is_zero_dist cat_zero (mkRvd true [12%positive] [8%positive]) = true /\
+  cat_nfix cat_zero = 2 /\ cat_nrand cat_zero = 2.
+Proof. repeat split; vm_compute; reflexivity. Qed.
